@@ -36,7 +36,7 @@ Definition ttl_of_raw (raw : string) : option Z := ttl_from_str (map lower (stri
 (* ---------- oracles, from observations only ---------- *)
 (* per key: the last execution whose outcome the condition accepted (instant, outcome) *)
 Definition accepted (c : condk) (o : outcome) : bool :=
-  match eval_cond c o, o with CRTrue, OVal _ => true | CRExc, OExc _ => true | _, _ => false end.
+  match eval_cond c o, o with CRTrue, OVal v => negb (is_excobj v) | CRExc, OExc _ => true | _, _ => false end.   (* an exception object handed back as a result is not stored *)
 Definition fresh (ttl now t : Z) : bool := (ttl <=? 0)%Z || (now <? t + ttl)%Z.
 Fixpoint find_last {A} (k : key) (l : list (key * A)) : option A :=   (* l: most recent first *)
   match l with [] => None | (k', a) :: r => if String.eqb k k' then Some a else find_last k r end.
